@@ -249,7 +249,7 @@ pub fn main_loop(progs: &[(&str, Factory)]) {
                Some("ok".into())
             },
             // `runtop`: the Lean side is the physical-index engine model's run_timeout; for the real code it is run_timeout
-            "runto" | "runtop" | "runtopl" | "runtopp" => {
+            "runto" | "runtop" | "runtopl" | "runtopp" | "runtoppl" => {
                let k: usize = toks.get(3)?.atom()?.parse().ok()?;
                let r = insts.get_mut(toks.get(2)?.atom()?)?.run_timeout(k)?;
                Some(format!("{}", r))
